@@ -92,7 +92,61 @@ let wport bufsize cs =
   | Ok o -> "OK " ^ string_of_zlist (out_bytes o) ^ " " ^ string_of_int (List.length o.ochunks)
   | Err e -> "ERR " ^ err_s e
 
+(* round 3: optional range arguments.  A string holding the code points <cs> is built as a slice at offset 2 of a
+   store with garbage before and after (as utf8->string! makes them).
+     wrange <bufsize> <pre bytes> <cs> <a|_> <e|_>  pre bytes, then (write-string s port [a [e]]), then U+20AC -> b:<bytes> | E
+     wstr   <bufsize> <pre bytes> <cs> <count|_>     the opcode itself, count in bytes (_ = #t)               -> b:<bytes> | E
+     rfill  <cs> <c> <a|_> <e|_>                     string-fill!     -> <code points> <bytes> <length> | E
+     rcopy  <to cs|=> <at> <from cs> <a|_> <e|_>     string-copy! (= : from is the target itself)            -> idem
+     cmp    <cs1> <cs2>                              sign of string-cmp -> -1 | 0 | 1
+     smap   <bufsize> <cs> <delta>                   string-map (c -> c + delta) -> <bytes> *)
+let enc_all cs = List.concat_map encode cs
+let shared_str (h : z list list) (cs : z list) : z list list * str =
+  let b = enc_all cs in
+  (h @ [[z_of_hex "c8"; z_of_hex "82"] @ b @ [z_of_hex "bf"; z_of_hex "42"]],
+   { sbytes = nat_of_int (List.length h); soff = S (S O); ssize = nat_of_int (List.length b); scow = false })
+let range_of a e = if a = "_" then RNone else if e = "_" then RStart (z_of_hex a) else RBoth (z_of_hex a, z_of_hex e)
+let sobs h s =
+  match string_length h s with
+  | Err e -> "ERR " ^ err_s e
+  | Ok n ->
+     let k = int_of_nat n in
+     let cs = List.init k (fun i -> match string_ref h s (z_of_hex (Printf.sprintf "%x" i)) with Ok c -> c | Err _ -> z_of_hex "-1") in
+     Printf.sprintf "%s %s %x" (string_of_zlist cs) (string_of_zlist (slice h s)) k
+let out_after bufsize pre (f : oport -> oport res) =
+  match write_bytes (open_output_string (nat_s bufsize)) (zlist_of_string pre) with
+  | Err _ -> "E"
+  | Ok o -> (match f o with
+             | Err _ -> "E"
+             | Ok o' -> (match write_char o' (z_of_hex "20ac") with
+                         | Ok o'' -> "b:" ^ string_of_zlist (out_bytes o'')
+                         | Err _ -> "E"))
+
 let handle = function
+  | ["wrange"; bufsize; pre; cs; a; e] ->
+     let (h, s) = shared_str [] (zlist_of_string cs) in
+     out_after bufsize pre (fun o -> match write_string_io h s (range_of a e) o with Ok (_, o') -> Ok o' | Err x -> Err x)
+  | ["wstr"; bufsize; pre; cs; count] ->
+     let (h, s) = shared_str [] (zlist_of_string cs) in
+     out_after bufsize pre (fun o -> op_write_string h s (if count = "_" then None else Some (z_of_hex count)) o)
+  | ["rfill"; cs; c; a; e] ->
+     let (h, s) = shared_str [] (zlist_of_string cs) in
+     (match string_fill h s (z_of_hex c) (range_of a e) with Ok (h', s') -> sobs h' s' | Err _ -> "E")
+  | ["rcopy"; t; at; f; a; e] ->
+     let (h, from) = shared_str [] (zlist_of_string f) in
+     let same = (t = "=") in
+     let (h, to_) = if same then (h, from) else shared_str h (zlist_of_string t) in
+     (match string_copy_bang h to_ (z_of_hex at) from same (range_of a e) with Ok (h', s') -> sobs h' s' | Err _ -> "E")
+  | ["cmp"; a; b] ->
+     let (h, s1) = shared_str [] (zlist_of_string a) in
+     let (h, s2) = shared_str h (zlist_of_string b) in
+     let d = string_cmp h s1 s2 in
+     let ds = hex_of_z d in
+     if ds = "0" then "0" else if String.length ds > 0 && ds.[0] = '-' then "-1" else "1"
+  | ["smap"; bufsize; cs; delta] ->
+     let (h, s) = shared_str [] (zlist_of_string cs) in
+     let dz = z_of_hex delta in
+     (match string_map (nat_s bufsize) h s (fun c -> Z.add c dz) with Ok b -> string_of_zlist b | Err e -> "ERR " ^ err_s e)
   | ["port"; kind; bufsize; bytes; sched; ops] ->
      let b = zlist_of_string bytes and sc = List.map (fun z -> nat_of_int (int_of_string ("0x" ^ z))) (if sched = "_" then [] else String.split_on_char ',' sched) in
      let p = if kind = "s" then open_string_port b else open_fd_port (nat_s bufsize) b sc in
